@@ -6,6 +6,9 @@ from concurrent.futures import ThreadPoolExecutor
 def run(ctx):
     thorough = ctx.tier == "thorough"
     if ctx.replay:
+        if '"ev":"Chan"' in open(ctx.replay).read():      # a transmit-side trace (sends with cancelled contexts)
+            ctx.validate("", "Trace_TxPath", "Trace_TxPath.cfg", ctx.replay, shards=1, label="replay (recorded trace)", extra_env={"JUDGE": "C13"})
+            return ctx.finish()
         ctx.validate("", "Trace_Life", "Trace_Life.cfg", ctx.replay, shards=1, label="replay (recorded trace)")
         return ctx.finish()
     # U1: repaired design (close signal) satisfies safety and liveness; the pinned design is refuted
@@ -49,7 +52,7 @@ def run(ctx):
     # a send with a cancelled context writes nothing: transmit-side traces (Trace_TxPath rule ~cancelled)
     t2 = os.path.join(ctx.scratch, "tx-cancel.ndjson")
     ctx.run_driver(["tx", "-count", 1500 if thorough else 300, "-seed", ctx.seed + 17, "-out", t2])
-    ctx.validate("", "Trace_TxPath", "Trace_TxPath.cfg", t2, label="sends with cancelled contexts write nothing")
+    ctx.validate("", "Trace_TxPath", "Trace_TxPath.cfg", t2, label="sends with cancelled contexts write nothing", extra_env={"JUDGE": "C13"})
     ctx.extra.update({"tlc_stimuli_sequences": len(uniq)})
     ctx.assumptions += [
         "time is observed with a watchdog: a call that has not returned 1.5 s after the last stimulus is Hung; Close on channel 0 with a peer that never answers the logout is bounded by the library's 1-minute logout context (thorough tier only)",
